@@ -534,6 +534,8 @@ class PolygonTensor(PolytopeTensor):
             o = Point(*[0] * self.dim)
             if e.free_indices > 0:
                 ind = ~e.contains(o)
+                # work on a copy: the cached supporting planes of the polygons must not be modified
+                e = type(e)(e)
                 e[ind] = cast(PlaneTensor, e[ind]).parallel(o)
             elif not e.contains(o):
                 # use parallel hyperplane for projection to avoid rescaling
